@@ -286,6 +286,14 @@ def sentClosedB (db : DB) : Bool :=
 def stepOKb (s : FState) (b : Blk) : Bool :=
   sentClosedB s.db && wfInB b && hbB s.db b && libDeclB s.db b
 
+/-- a finite universe of blocks given as a list, and the executable check that it is consistent (ids identify
+    blocks, heights grow along parent links); soundness: Lemmas/StepCheckSound.uokB_sound -/
+def ofList (l : List Blk) : Id → Option Blk := fun id => l.find? (fun b => b.id == id)
+
+def uokB (l : List Blk) : Bool :=
+  l.all wfInB && l.all (fun b => l.all (fun c => !(b.id == c.id) || b == c)) &&
+  l.all (fun b => l.all (fun p => !(b.parent == p.id) || decide (p.num < b.num)))
+
 /-! ### read-only queries (C18) -/
 
 def headInfo (s : FState) : Option Blk := s.lastSent
